@@ -149,7 +149,7 @@ def ensure_coq():
             rc, out, err = sh(["coq_makefile", "-f", "_CoqProject", "-o", "Makefile"], cwd=COQ)
             if rc != 0:
                 return False, out + err
-        rc, out, err = sh(["timeout", "3000", "make", "-k", "-j16"], cwd=COQ, timeout=3100)
+        rc, out, err = sh(["timeout", "3000", "make", "-k", "-j16", "COQC=timeout 900 coqc"], cwd=COQ, timeout=3100)
         return rc == 0, out + err
 
 
